@@ -87,6 +87,7 @@ type workerSummary struct {
 	Steps       int               `json:"steps"`
 	Samples     []runResult       `json:"samples"`
 	Hashes      map[string]string `json:"hashes"`
+	RacyRuns    int               `json:"racy_runs"`
 	ReplayPairs int               `json:"replay_pairs"`
 	ReplayDiv   []string          `json:"replay_divergences,omitempty"`
 	WallS       float64           `json:"wall_s"`
@@ -491,6 +492,7 @@ func cmdCheck(prop, tier string) int {
 		agg.SimTimeS += sum.SimTimeS
 		agg.Steps += sum.Steps
 		agg.ReplayPairs += sum.ReplayPairs
+		agg.RacyRuns += sum.RacyRuns
 		agg.ReplayDiv = append(agg.ReplayDiv, sum.ReplayDiv...)
 		agg.Budget += sum.Budget
 		for k, v := range sum.Stats {
@@ -738,6 +740,7 @@ func cmdCheck(prop, tier string) int {
 			"distinct_abstract_states":   len(states),
 			"distinct_decision_lists_nt": len(distinct),
 			"nontrivial_runs":            agg.NonTrivial,
+			"racy_scenario_runs":         agg.RacyRuns,
 			"step_budget_exhausted_runs": agg.Budget,
 			"determinism":                map[string]any{"pairs_compared": detPairs, "divergences": len(detDiv), "method": "same run re-executed from its recorded decision list in-process, and the same seeds re-run in separate processes at GOMAXPROCS 1 and 4; trace hashes compared"},
 			"real_components":            meta.Real,
